@@ -480,10 +480,11 @@ PLANS = {
     "C16": c16_plan,
     "C02": realtime_plan("C02", [("RT_fields.cfg", "RT_fields.cfg", ZONES, 1),
                                  (("RT_random.cfg", 1500), ("RT_random.cfg", 30000), ZONES, 1),
-                                 ("RT_merge_quick.cfg", "RT_merge_thorough.cfg", "nil,America/New_York", 4)],
+                                 ("RT_merge_quick.cfg", "RT_merge_thorough.cfg", "nil,America/New_York", 4),
+                                 ("RT_alerts_quick.cfg", "RT_alerts_quick.cfg", "nil", 1)],
                          {"distinct_messages": 1500, "conflict_free_messages": 1500}),
-    "C04": realtime_plan("C04", [("RT_merge_quick.cfg", "RT_merge_thorough.cfg", "nil", 4)], {"messages_with_2plus_entities": 400, "conflict_free_messages": 300}),
-    "C07": realtime_plan("C07", [("RT_merge_quick.cfg", "RT_merge_thorough.cfg", "nil", 4)], {"messages_with_2plus_entities": 400, "conflict_free_messages": 300}),
+    "C04": realtime_plan("C04", [("RT_merge_quick.cfg", "RT_merge_thorough.cfg", "nil,America/Santiago", 4)], {"messages_with_2plus_entities": 400, "conflict_free_messages": 300}),
+    "C07": realtime_plan("C07", [("RT_merge_quick.cfg", "RT_merge_thorough.cfg", "nil,America/Santiago", 4)], {"messages_with_2plus_entities": 400, "conflict_free_messages": 300}),
     "C12": realtime_plan("C12", [("RT_alerts_quick.cfg", "RT_alerts_thorough.cfg", "nil,America/Santiago", 1), ("RT_alerts2.cfg", "RT_alerts2.cfg", "nil", 2),
                                  ("RT_merge_quick.cfg", "RT_merge_quick.cfg", "nil", 1)], {"distinct_messages": 400}),
     "C20": c20_plan,
